@@ -73,5 +73,8 @@ class WSession:
     def returned(self) -> bool:
         return self.returned_at is not None
 
+    def close(self) -> None:
+        self.loop.shutdown()
+
     def alive_tasks(self) -> List[str]:
         return sorted(t.get_coro().__qualname__ for t in asyncio.all_tasks(self.loop) if not t.done())
